@@ -261,7 +261,7 @@ func (e *Env) index(base, idx Val, what string) Val {
 	if el, ok := g.sorts.sliceEl[base.Sort]; ok {
 		h := g.sorts.heapFor(base.Sort)
 		s := base.Sort
-		return Val{Sort: el, Term: fmt.Sprintf("(select (select %s (arr_%s %s)) (+ (off_%s %s) %s))", g.heapGet(e.state(), h), s, base.Term, s, base.Term, idx.Term), GoT: g.sorts.sliceGo[s]}
+		return Val{Sort: el, Term: fmt.Sprintf("(sget_%s %s %s %s)", s, g.heapGet(e.state(), h), base.Term, idx.Term), GoT: g.sorts.sliceGo[s]}
 	}
 	if kv, ok := g.sorts.mapKV[base.Sort]; ok {
 		h, mv := g.sorts.mapHeap(base.Sort)
@@ -310,6 +310,13 @@ func (e *Env) binary(n *ast.BinaryExpr) Val {
 			res := "false"
 			if a.Ptr != nil && b.Ptr != nil && sameAddr(a.Ptr, b.Ptr) {
 				res = "true"
+			}
+			// pointer against nil: the nil flag of a nullable static pointer
+			if a.Ptr != nil && b.Ptr == nil && a.NilFlag != "" {
+				res = a.NilFlag
+			}
+			if b.Ptr != nil && a.Ptr == nil && b.NilFlag != "" {
+				res = b.NilFlag
 			}
 			if n.Op == token.NEQ {
 				res = not(res)
@@ -587,6 +594,14 @@ func (e *Env) call(n *ast.CallExpr) Val {
 			return Val{Sort: "Str", Term: name}
 		}
 		return Val{Sort: "Str", Term: fmt.Sprintf("(%s %s)", name, strings.Join(terms, " "))}
+	case "rangekey": // rangekey(j): the j-th key of the map enumeration of the enclosing map-range loop
+		need(1)
+		en, ok := e.vars["rangekeys"]
+		if !ok {
+			g.fail("rangekey() outside a map range loop")
+		}
+		j := e.tr(args[0])
+		return Val{Sort: "Str", Term: fmt.Sprintf("(%s %s)", en.Term, j.Term)}
 	case "fresh": // fresh(s): the slice/map was allocated by the callee (not aliased with anything that existed before)
 		need(1)
 		v := e.tr(args[0])
